@@ -111,7 +111,8 @@ def rand_string(rng):
 
 
 INTS = [0, 1, -1, 7, -42, 10, 100, 255, 2 ** 31, -2 ** 31, 2 ** 63, -2 ** 63 - 1, 10 ** 20, -10 ** 30 + 1, 2 ** 200,
-        10 ** 4299, -(10 ** 4299), 10 ** 4300 - 1]
+        10 ** 300, -(10 ** 299) + 1]
+INTS_AT_LIMIT = [10 ** 4300 - 1]          # 4300 digits: printable; minutes of vm_compute in the model (thorough only)
 INTS_TOO_LONG = [10 ** 4300, -(10 ** 4300), 7 * 10 ** 5000]
 FLOATS = ["0.0", "-0.0", "1.0", "-1.0", "1.5", "0.1", "0.5", "100.0", "123456789012345.6", "1234567890123456.0",
           "9007199254740992.0", "9007199254740994.0", "1e+16", "-1e+16", "1.2e+16", "1e+22", "1e+23", "-1e+23",
@@ -314,10 +315,12 @@ def both(v, pc=PC0):
     return [case(v, pc, 0), case(v, pc, 1)]
 
 
-def fixed_cases():
+def fixed_cases(thorough=False):
     out = []
     for n in INTS + INTS_TOO_LONG:
         out += both(J_int(n))
+    if thorough:
+        out.append(case(J_int(INTS_AT_LIMIT[0]), PC0, 0))
     for f in FLOATS:
         out += both(["f", f])
     for n, d in RATIOS:
@@ -391,13 +394,13 @@ def cases(tier, rng):
         out += both(S(s))
     for _ in range(2000 if thorough else 150):
         out.append(case(rand_string(rng), PC0, rng.randint(0, 1)))
-    out += fixed_cases()
+    out += fixed_cases(thorough)
     out += name_cases()
     for _ in range(3000 if thorough else 150):
         out.append(case(rand_float(rng), PC0, rng.randint(0, 1)))
     for _ in range(500 if thorough else 40):
         out.append(case(rand_decimal(rng), [True, False, False], rng.randint(0, 1)))
-        out.append(case(J_int(rng.randint(-10 ** rng.randint(1, 400), 10 ** rng.randint(1, 400))), PC0, rng.randint(0, 1)))
+        out.append(case(J_int(rng.randint(-10 ** rng.randint(1, 150), 10 ** rng.randint(1, 150))), PC0, rng.randint(0, 1)))
         n, d = rng.randint(-10 ** 12, 10 ** 12), rng.randint(2, 10 ** 12)
         g = math.gcd(n, d)
         if d // g > 1:
